@@ -342,6 +342,11 @@ Definition oracle_c04 (c : sim_case) : list Z :=
   (if forallb (fun lv => nondecreasing (map fst (log_of_level lv (sc_ticklog c)))) (keys (sc_cfg c)) then [] else [46]).
 Definition check_sim_c04 (c : sim_case) : list Z := check_sim c ++ oracle_c04 c.
 
+(* C03 on runs the model does not predict (an interrupt injected at an arbitrary event-loop step):
+   81 some update was handed something else than the latest value of a resolved source *)
+Definition oracle_c03 (c : sim_case) : list Z :=
+  if latest_ok (flat_conns (sc_cfg c)) (sc_devs c) [] [] (sc_trace c) then [] else [81].
+
 (* ---------- C08 on whole simulations: one simulation on the synchronous in-memory bus (the
    reference) and on a conforming bus that delays and reorders deliveries (per-topic FIFO kept,
    one message at a time per consumer, replay on subscribe).
